@@ -141,9 +141,22 @@ def run(ctx):
             if name_acc[callee_name(t)] != want_name_kind:
                 r1.violation("%s:name-table" % mode, "%s mode looks names up in the %s table" % (mode, name_acc[callee_name(t)]), site_of(b, bb))
                 continue
-            sp_ = split_part(prog, b, b.expr_operand(t["args"][1]), acc, astuple)
-            if sp_ and sp_[0] == "word":
-                r1.ok("%s:name-arg" % mode, "name look-up receives word() of the split value")
+            name_e = b.expr_operand(t["args"][1])
+            stripped = None
+            if mode == "fixed":
+                # the composed word can contain the non-joiners that traditional joining / a doubled hasanta insert: they are not part of a name
+                for x in name_e.walk():
+                    if x.k == "call" and x.a[0].endswith("::replace") and "str" in x.a[0] and len(x.a[1]) == 3:
+                        pat, rep = strip_refs(x.a[1][1]), strip_refs(x.a[1][2])
+                        if ((is_const(pat, "char") or is_const(pat, "str")) and const_val(pat) == "\u200c") and is_const(rep, "str") and const_val(rep) == "":
+                            stripped = x.a[1][0]
+            sp_ = split_part(prog, b, stripped if stripped is not None else name_e, acc, astuple)
+            if mode == "fixed" and sp_ and sp_[0] == "word" and stripped is None:
+                r1.violation("%s:name-arg" % mode, "the Bengali name look-up receives the composed word as it is; with traditional joining (or a doubled hasanta) the word contains "
+                             "U+200C, which no emoji name contains — such names (e.g. কুল typed as ক‌ুল) offer no emoji. The dictionary search strips the joiner, this look-up must too",
+                             site_of(b, bb))
+            elif sp_ and sp_[0] == "word":
+                r1.ok("%s:name-arg" % mode, "name look-up receives word() of the split value" + (" with the non-joiners removed" if stripped is not None else ""))
             else:
                 r1.violation("%s:name-arg" % mode, "name look-up receives %r, expected the word part of the split typed text"
                              % (peel_conv(b.expr_operand(t["args"][1])),), site_of(b, bb))
@@ -345,6 +358,16 @@ def run(ctx):
     r9.floor(1, "phonetic builder")
 
 
+def _unstripped(e):
+    """The word a joiner-stripping `replace(U+200C, "")` is applied to (or e itself)."""
+    for x in e.walk():
+        if x.k == "call" and x.a[0].endswith("::replace") and "str" in x.a[0] and len(x.a[1]) == 3:
+            pat, rep = strip_refs(x.a[1][1]), strip_refs(x.a[1][2])
+            if ((is_const(pat, "char") or is_const(pat, "str")) and const_val(pat) == "\u200c") and is_const(rep, "str") and const_val(rep) == "":
+                return x.a[1][0]
+    return e
+
+
 def _zip_chain(x, name_acc):
     """(adaptor names outermost first, payload is the look-up's own Some payload, ranks start at 1) of an iterator expression."""
     chain_names = []
@@ -399,7 +422,7 @@ def _check_wrap(r3, key, prog, b, p, rank_e, subst, nx, nt, acc, astuple, site, 
     post = split_part(prog, b, fp[2][1], acc, astuple)
     midok = _is_pair_part(mid, 0, nx)
     # the split value must be the same variable the word candidates are wrapped with (the user variable of the builder)
-    name_arg_part = split_part(prog, b, b.expr_operand(nt["args"][1]), acc, astuple)
+    name_arg_part = split_part(prog, b, _unstripped(b.expr_operand(nt["args"][1])), acc, astuple)
     same_var = pre and post and name_arg_part and _same_split(pre[1], name_arg_part[1]) and _same_split(post[1], name_arg_part[1])
     if not (pre and post and pre[0] == "preceding" and post[0] == "trailing" and midok):
         r3.violation(key, "emoji candidates are wrapped as (%s, %r, %s), expected (preceding, entry, trailing) of the split value"
